@@ -512,6 +512,13 @@ func runC16(c *Ctx) {
 					rejects[fmt.Sprintf("length-%d-left-padded", l)] = b2
 				}
 			}
+			// each half left-padded with zeros to the width of ANOTHER curve (a 64-octet ES256 signature dressed
+			// up as 96 or 132 octets): the width is that of the verifier's own key
+			for _, other := range []int{32, 48, 66, 128} {
+				if other > n {
+					rejects[fmt.Sprintf("halves-padded-to-%d", other)] = append(sg.r.FillBytes(make([]byte, other)), sg.s.FillBytes(make([]byte, other))...)
+				}
+			}
 			for _, l := range []int{255, 256, 511, 512, 513, 1024, 4096, 65536, 1 << 20} {
 				b := make([]byte, l)
 				copy(b, good)
